@@ -71,6 +71,15 @@ claim("C15",
       "Not decided: the registry maps valueToECI/nameToECI (Go maps are not modelled: lookups return arbitrary values), GetCharacterSetECI/ByName/ByValue consistency, that the ECI segment is emitted whenever a hint is given, "
       "guessCharset, the transcoders of golang.org/x/text (external), decodeByteSegment's choice of character set, the end-to-end round trip per encoding.",
       "x/text transcoders and ianaindex are external stubs; maps unmodelled; tables dumped from the compiled package.")
+claim("C03",
+      "Narrow claim on the writer/reader mirror pieces of the 1-D symbologies (the rendered-image round trip itself is not decided): "
+      "Code 128: code128ChooseCode is proved to return a code set that can encode the next character (A: ASCII 0..95 or FNC1-4, B: ASCII 32..127 or FNC1-4, C: a digit pair or FNC1) for every content and position, "
+      "code128FindCType equals its classification; the 107-entry pattern table shared by writer and reader has 11-module six-run patterns (stop: 13 modules, seven runs), pairwise distinct (5565 pairs); "
+      "ITF: the writer's pattern table marks the same elements wide/narrow as both width variants of the reader's table, two wide of five, pairwise distinct; "
+      "UPC/EAN: L patterns are four runs of 7 modules, G = reversed L (as built by init), all 20 distinct; the check-digit, UPC-E expansion and parity-table obligations of C10 (convertUPCEtoUPCA, writer check digits, EAN-13/UPC-E parities) carry the canonical(c) part; "
+      "onedWriter_renderResult's geometry is C14. "
+      "Not decided: the row decoders (decodeRow of every reader) against rendered rows, Code 39/93 extended-mode escapes, Codabar, the Code 128 reader's code-set state machine and checksum, quiet-zone validation, MultiFormat dispatch, the end-to-end round trip.",
+      "tables dumped from the compiled package (after init); runes as integers.")
 claim("C04",
       "Field arithmetic, all six fields, every element: the compiled exp/log tables are proved to be the orbit of multiplication by x modulo the field's primitive polynomial "
       "(exp[0]=1, exp[i+1]=xtime(exp[i]), log(exp(i))=i, exp(log(x))=x, x*inv(x)=1 via the tables), GenericGF.Multiply/Inverse/Exp/Log are proved equal to their table definitions with exact error conditions, "
@@ -155,6 +164,6 @@ claim("C17",
       "calculateBlackPoints, calculateThresholdForBlock, thresholdBlock, GetBlackRow).",
       "products of symbolic integers uninterpreted except for the proved index lemmas (viewRow, rotIdx, rowIdxInj); errors constructors from xerrors assumed non-panicking.")
 
-for p in ["C02","C03"]:
+for p in ["C02"]:
     na(p, NOTYET)
 na("C11", "The library has no Aztec writer: 'conforming symbol' would have to be a hand-written restatement of ISO/IEC 24778 (a model, not the code), and the image-to-bits path is a float-geometry detector; no contract on one call of the real code expresses the property. The Aztec decoder's totality is covered under C06.")
